@@ -162,3 +162,17 @@ def conjunct_nodes(test: ast.AST) -> List[ast.AST]:
     for v in vals:
         out += conjunct_nodes(v) if isinstance(v, ast.BoolOp) and isinstance(v.op, ast.And) else [v]
     return out
+
+
+def if_leaves(e: ast.AST) -> List[ast.AST]:
+    """the alternatives of a (nested) conditional expression: `a if c else (b if d else e)` -> [a, b, e]; any other expression -> [itself]"""
+    if isinstance(e, ast.IfExp):
+        return if_leaves(e.body) + if_leaves(e.orelse)
+    return [e]
+
+
+def if_cases(e: ast.AST, conds=()) -> List[Tuple[Tuple[Tuple[ast.AST, bool], ...], ast.AST]]:
+    """[(conditions, leaf)] for a (nested) conditional expression; conditions are (test, sense) pairs"""
+    if isinstance(e, ast.IfExp):
+        return if_cases(e.body, conds + ((e.test, True),)) + if_cases(e.orelse, conds + ((e.test, False),))
+    return [(tuple(conds), e)]
